@@ -110,6 +110,7 @@ class Tracker:
         self.local_resets = {}      # sid -> seq at which this endpoint sent RST_STREAM
         self.refused_promises = {}  # promised sid -> parent
         self.initial_settings = None
+        self.hi_peer_maybe = set()  # highest id of a delivered HEADERS that tried to open a peer stream
 
     # -- helpers -----------------------------------------------------------
     def is_mine(self, sid):
@@ -273,6 +274,9 @@ class Tracker:
         frame with a stream error or ignored it as invalid; `conn_error`: the
         receive call raised."""
         t = f.type
+        if t == C.HEADERS and f.sid and not self.is_mine(f.sid) and f.sid > self.hi_peer:
+            # the peer did try to open this stream, whatever became of the frame
+            self.hi_peer_maybe.add(f.sid)
         if conn_error:
             return
         if t == C.SETTINGS:
@@ -362,7 +366,18 @@ class Tracker:
                 self._in_es(st)
             return
         if t == C.PUSH_PROMISE and f.block_frames is not None:
-            if rejected or f.bad or f.hpack_error:
+            if f.bad or f.hpack_error:
+                return
+            if rejected:
+                # the promised stream was refused (RST_STREAM): the id is used up
+                # and the stream counts as one this endpoint reset
+                p = f.promised
+                if p and not self.is_mine(p) and p > self.hi_peer and p not in self.streams:
+                    st = self._new(p, False, 'rsvR', pushed=True)
+                    st.parent = f.sid
+                    self._close(st, 'rst_sent')
+                    self.local_resets[p] = self.close_counter
+                    self.refused_promises[p] = f.sid
                 return
             hs = f.headers or []
             st = self._new(f.promised, False, 'rsvR', pushed=True)
